@@ -20,6 +20,15 @@ def r6(x: float) -> float:
 finite = dict(allow_nan=False, allow_infinity=False)
 
 
+@st.composite
+def rarely(draw, rare, usual, one_in):
+    """`rare` in about one case of `one_in`, else `usual`.  (st.one_of with repeated alternatives does not give this: identical
+    alternatives are merged and the ends of an integer range are favoured - hence an explicit draw compared with a mid-range value.)"""
+    if draw(st.integers(0, one_in - 1)) == one_in // 2:
+        return draw(rare)
+    return draw(usual)
+
+
 # --- Cartesian grids ---------------------------------------------------------------------
 @st.composite
 def cart_grids(draw, dims=(1, 2, 3), max_shape=(24, 24, 12), min_shape=1, aniso=(0.4, 2.5), periodic=None, log_spacing=(-2.0, 1.5)):
